@@ -598,3 +598,18 @@ class C08(Monitor):
                                           "v = rx.equiv(str(r), ref)",
                                           "assert v[0] in ('tree', 'texts'), (str(r), ref, v)"]),
             observed=text, expected=ref))
+
+
+class C02Groups(C08):
+    """C02 also speaks about captured substrings: capture()/group() transitions of the general graph are judged by the same
+    documented group-structure model that C08 uses on its own (deeper, narrower) graph"""
+    pid = 'C02'
+
+    def on_transition(self, tr, succ, acc):
+        if tr.op.family != 'group':
+            return
+        before = len(acc.viol)
+        C08.on_transition(self, tr, succ, acc)
+        for v in acc.viol[before:]:
+            if v['key'].startswith('C08|'):
+                v['key'] = 'C02|groups|' + v['key'][4:]
